@@ -56,7 +56,9 @@ func (m *Model) Enabled(op Op) bool {
 	case KReset, KPkg:
 		return true
 	case KApplyO:
-		return op.T == TG
+		if op.T != TG && op.T != TF1 {
+			return false
+		}
 	}
 	t := m.Resolve(op)
 	c := &m.Cfg[op.B][t]
